@@ -13,8 +13,9 @@ stated about what the source says now:
                          and stores nothing into the child afterwards
   spanExactFit           get_span_text() stores the terminator only under `len > bytes`
   keyHoldsNext / mouseHoldsNext   the sibling loops of _handle_key/_handle_mouse read `child->next` before the handler runs
-  dragSourceForgotten    _handle_mouse reports no window from a frame whose window is closed or dying, and
-                         _purge_hierarchy_changes forgets root->drag_source_window when it lies in the closing subtree
+  dragForgottenOnClose   _purge_hierarchy_changes forgets root->drag_source_window when it lies in the closing subtree
+  snapshotRouting        _handle_key/_handle_mouse walk a counted snapshot of the children and test _is_shown;
+                         _handle_mouse returns a counted reference which on_term_mouse drops
   mouseKeepsRoot         on_term_mouse holds a reference on the root window from before its first dispatch to after its last
   lastPressInit          tickit_window_new_root2 initialises mouse_last_button/line/col
 """
@@ -85,15 +86,16 @@ def run(ctx):
         return 0 <= i1 < i2 and "tickit_window_ref(next)" not in b
     flags["keyHoldsNext"] = holds_next(hkey, "_handle_key")
     flags["mouseHoldsNext"] = holds_next(hmouse, "_handle_mouse")
-    idone = hmouse.rfind("done:")
-    tail = hmouse[idone:] if idone >= 0 else ""
-    m1 = re.search(r"if\s*\(\s*win->is_closed\s*\|\|\s*win->refcount\s*==\s*1\s*\)\s*ret\s*=\s*NULL\s*;", tail)
-    guarded = bool(m1) and tail.find("tickit_window_unref(win)") > m1.end()
     forgets = re.search(r"for\s*\([^;]*root->drag_source_window\s*;[^;]*;[^)]*->\s*parent\s*\)\s*if\s*\(\s*w\s*==\s*win\s*\)\s*\{\s*root->drag_source_window\s*=\s*NULL", purge) is not None
-    flags["dragSourceForgotten"] = bool(guarded and forgets)
-    if guarded != forgets:
-        notes.append("dragSourceForgotten: partial (%s)" % dict(guarded=guarded, forgets=forgets))
-
+    flags["dragForgottenOnClose"] = bool(forgets)
+    # routing repairs: counted snapshot of the children in both walkers, _is_shown, counted return dropped by on_term_mouse
+    snap_key = "_ref_children(win" in hkey and "_unref_children(" in hkey and "child->parent != win" in hkey
+    snap_mouse = "_ref_children(win" in hmouse and "_unref_children(" in hmouse and "child->parent != win" in hmouse
+    shown = hkey.count("_is_shown(win)") >= 2 and hmouse.count("_is_shown(win)") >= 2
+    counted = re.search(r"ret\s*=\s*tickit_window_ref\(\s*win\s*\)", hmouse) is not None and tmouse.count("tickit_window_unref(") >= 6
+    flags["snapshotRouting"] = bool(snap_key and snap_mouse and shown and counted)
+    if len({snap_key, snap_mouse, shown, counted}) > 1:
+        notes.append("snapshotRouting: partial (%s)" % dict(key=snap_key, mouse=snap_mouse, shown=shown, counted=counted))
     newroot = body_of(win, "TickitWindow* tickit_window_new_root2") or body_of(win, "TickitWindow *tickit_window_new_root2") or ""
     if not newroot:
         info["untranslatable"].append("life:function:tickit_window_new_root2")
